@@ -7,7 +7,7 @@ import re
 
 from engine import site_of
 from facts import callee_decl, callee_name, op_place
-from flow import tracer, short, required_outcomes, cmp_facts, switch_cond, deep_origins
+from flow import tracer, short, required_outcomes, cmp_facts, switch_cond, deep_origins, dep_closure
 from bounds import bounded_below, const_value, guard_bound
 from callgraph import callgraph
 
@@ -459,8 +459,30 @@ def r4_notification(ctx):
     for bb, i, s in cf.statements():
         if s["s"] == "assign" and s["rvalue"]["rv"] == "bin" and s["rvalue"]["op"] in ("Add", "AddWithOverflow"):
             inc.append((s["rvalue"]["a"], s["rvalue"]["b"]))
+    # ... also when written as a method call (checked_add / saturating_add / wrapping_add / Add::add)
+    for bb, t in cf.calls():
+        m = callee_decl(t).rsplit("::", 1)[-1]
+        if m in ("checked_add", "saturating_add", "wrapping_add", "add", "strict_add") and len(t.get("args", [])) == 2:
+            inc.append((t["args"][0], t["args"][1]))
     ok = any(const_value(cf, b) == 1 and any(o.path and o.path[-1][2] == "received" for o in tracer(cf).operand(a)) for a, b in inc)
     ctx.check(ok and len(inc) == 1, "TickMessages::confirm/increments-received-by-one", site_of(cf), "received counter is not incremented by exactly one per confirmation")
+    # the counters hold the count as it came from the wire: no narrowing (a clamped count makes a tick look complete early)
+    import bitwidth
+    TM = next((a for a in F.adts if a.endswith("server_mutate_ticks::TickMessages")), None)
+    if TM is None:
+        ctx.bad("TickMessages/type", "", "TickMessages not found", kind="anchor-missing")
+    else:
+        wire = cf.locals[2]["ty"] if len(cf.locals) > 2 else "usize"
+        ww = bitwidth.ty_width(wire) or 64
+        for f in F.adt_fields(TM) or []:
+            fw = bitwidth.ty_width(f["ty"])
+            ctx.check(fw is not None and fw >= ww, "TickMessages.%s/as-wide-as-the-wire-count" % f["name"], TM,
+                      "the per-tick counter `%s` is %s, narrower than the message count it is compared with (%s): for a tick split into more messages than it can hold the tick "
+                      "is reported as fully received too early and the notification fires repeatedly" % (f["name"], f["ty"], wire), "%s vs %s" % (f["ty"], wire))
+        lossy = bitwidth.lossy_ops(cf)
+        ctx.check(not lossy, "TickMessages::confirm/no-lossy-conversion", site_of(cf), "the message count is narrowed: %s" % [x[3] for x in lossy])
+        conv = [callee_decl(t) for _, t in cf.calls() if callee_decl(t).rsplit("::", 1)[-1] in ("try_from", "try_into", "min", "clamp")]
+        ctx.check(not conv, "TickMessages::confirm/count-stored-as-received", site_of(cf), "the message count is converted/clamped before being stored (%s)" % conv)
     # flag agreement: server writes the count iff track_mutate_messages; client reads iff ServerMutateTicks exists;
     # ClientPlugin::finish creates ServerMutateTicks iff the same flag
     fin = ctx.fn("<bevy_replicon::client::ClientPlugin as bevy_app::plugin::Plugin>::finish")
@@ -504,10 +526,59 @@ def r4_notification(ctx):
               "no serialisation of the message count guarded by the track_mutate_messages flag was found")
 
 
+def r5_positive_answers_justified(ctx):
+    """A query of the per-tick tracker says `received` only for a reason that is in the data: the slot's counters (`all_received`)
+    or the documented convention that ticks older than the window count as received (a comparison involving the window length).
+    A constant `true` under any other condition (e.g. `the range reaches the newest tick`) disagrees with `contains`/`mask` and
+    with the notification, because the newest tick may be only partially received."""
+    F = ctx.F
+    n = 0
+    for name in ("server_mutate_ticks::ServerMutateTicks::contains_any", "server_mutate_ticks::ServerMutateTicks::contains"):
+        b = ctx.fn(name)
+        tr = tracer(b)
+        for bb, i, st in b.statements():
+            if not (st["s"] == "assign" and st["place"] == {"l": 0, "p": []} and st["rvalue"]["rv"] == "use" and st["rvalue"]["op"].get("k") == "const"):
+                continue
+            val = st["rvalue"]["op"].get("val")
+            if val not in (1, True):
+                continue
+            n += 1
+            justified = False
+            why = []
+            for (sb, c, o) in required_outcomes(F, b, bb):
+                if c["kind"] == "variant" and o == {"None"} and "place" in c:
+                    # `self.ticks.get(ago)` is None: the index lies beyond the window
+                    if any(x.kind == "call" and callee_decl(b.blocks[x.data].term).rsplit("::", 1)[-1] in ("get", "get_mut") for x in tr.place(c["place"])):
+                        justified = True
+                        why.append(("window.get(..) is None", True))
+                    continue
+                if c["kind"] != "cmp":
+                    continue
+                if len(o) != 1 or next(iter(o)) not in (True, False):
+                    continue
+                rel, x, y = cmp_facts(c, next(iter(o)))
+
+                def has_len(op):
+                    return any(k == "call" and callee_decl(b.blocks[d].term).rsplit("::", 1)[-1] == "len" for (k, d) in dep_closure(b, op))
+                # `tick <= last_tick - window_len`: the queried tick is on the smaller side, the window length on the greater side
+                older = rel in ("<", "<=") and has_len(y) and not has_len(x)
+                why.append(("%s %s" % (rel, "window" if has_len(y) else "?"), older))
+                if older:
+                    justified = True
+            ctx.check(justified, ctx.nth("%s/constant-true-only-below-the-window" % short(name)), "%s (%s)" % (b.path, st.get("span", b.span)),
+                      "the query answers `true` without consulting a slot's counters and not under the older-than-the-window rule (guards: %s): it reports ticks as fully received "
+                      "that are not" % why)
+        # the non-constant answer comes from all_received()
+        ok = any(callee_decl(t).endswith("TickMessages::all_received") for bb2 in [b] + F.closures_of(b.path) for _, t in bb2.calls())
+        ctx.check(ok, "%s/answer-from-counters" % short(name), site_of(b), "the query never consults TickMessages::all_received")
+    ctx.check(n >= 1, "constant-answers", "", "no constant `true` answer found (the older-than-the-window rule is expected in contains_any)")
+
+
 RULES = [
     ("C12.R1", "every shift amount in the confirmation windows is < the bit width", r1_shift_bounds, 6, None),
     ("C12.R2", "the mutate-tick ring keeps exactly 64 slots and recycles one slot per skipped tick", r2_ring_length, 5, None),
     ("C12.R3", "ticks are ordered only through the wrapping comparison", r3_wrapping_order, 8, None),
     ("C12.R4", "the fully-received notification is wired to the ring's own verdict", r4_notification, 10, ["default", "all-features", "client-only"]),
+    ("C12.R5", "the per-tick tracker answers `received` only from a slot's counters or under the older-than-the-window rule", r5_positive_answers_justified, 3, ["default", "all-features", "client-only"]),
 ]
 THOROUGH_CONFIGS = ["default", "all-features", "client-only"]
